@@ -266,6 +266,39 @@ pub fn topologies(thorough: bool) -> Vec<Topo> {
     v
 }
 
+/// C15 only: one pair of alternative routes between the same two switches, a fast main track of length L and a
+/// shorter, slower cut-off -- YW(1) -> S1(2) -> [MAIN(3) | CUT(4)] -> S2(5) -> YE(6).  The train has to brake for
+/// the cut-off while still on S1, so the alternatives part by speed before the switch and their first steps take a
+/// different time; L runs over a 100 m grid so that every ordering of "first step longer / shorter" against "whole
+/// detour longer / shorter" occurs, including the narrow band where the two disagree.
+pub fn cutoff_topologies(thorough: bool) -> Vec<Topo> {
+    let mut v = vec![];
+    let cuts: Vec<(f64, f64)> = if thorough { vec![(1000.0, 10.0), (500.0, 8.0), (1500.0, 12.0), (2000.0, 15.0)] } else { vec![(1000.0, 10.0), (500.0, 8.0)] };
+    for (cut_len, cut_v) in cuts {
+        let mut main = 1000.0;
+        while main <= 8000.0 {
+            let lens = [YARD, 3000.0, main, cut_len, 3000.0, YARD];
+            let mut f: Vec<FwdLink> = lens.iter().map(|l| FwdLink::new(*l, 20.0)).collect();
+            let set = |f: &mut Vec<FwdLink>, i: usize, prev: usize, prev_alt: usize, next: usize, next_alt: usize| {
+                f[i - 1].prev = prev;
+                f[i - 1].prev_alt = prev_alt;
+                f[i - 1].next = next;
+                f[i - 1].next_alt = next_alt;
+            };
+            set(&mut f, 1, 0, 0, 2, 0);
+            set(&mut f, 2, 1, 0, 3, 4);
+            set(&mut f, 3, 2, 0, 5, 0);
+            set(&mut f, 4, 2, 0, 5, 0);
+            set(&mut f, 5, 3, 4, 6, 0);
+            set(&mut f, 6, 5, 0, 0, 0);
+            f[3].speed_limits = vec![(0.0, cut_len, cut_v)];
+            v.push(finish(&format!("cutoff-L{}-c{}v{}", main as u32, cut_len as u32, cut_v as u32), f, vec![("W", vec![1]), ("E", vec![6])], vec![(0, 1, true), (1, 0, false)]));
+            main += 100.0;
+        }
+    }
+    v
+}
+
 #[derive(Debug, Clone, Copy, Serialize, Deserialize, PartialEq, Eq, Hash)]
 pub struct TrainDesc {
     /// index into topo.ods
